@@ -386,3 +386,128 @@ Lemma child_options_run_outcomes :
   | _, _ => False
   end.
 Proof. vm_compute. exact I. Qed.
+
+(* ---- a Chain child that carries a deferred error (an Append* after it was compiled: ErrChainCompiled) blocks every
+   later Compile of the graph that holds it *)
+Definition chain_err (s : nstate) (id : string) (e : ecls) : Prop :=
+  exists ch, nlookup id (ns_inn s) = Some (IC ch) /\ c_err ch = Some e.
+
+Lemma cc_keeps_chain_err : forall ids inn inn' f id ch e,
+  compile_children ids inn = (inn', f) -> nlookup id inn = Some (IC ch) -> c_err ch = Some e ->
+  nlookup id inn' = Some (IC ch).
+Proof.
+  induction ids as [|[id0 oc0] ids IH]; intros inn inn' f id ch e H L E; simpl in H.
+  - inversion H; subst; assumption.
+  - destruct (nlookup id0 inn) as [g0|] eqn:L0; [|eapply IH; eauto].
+    destruct (inner_compile g0 oc0) as [g0' o] eqn:G.
+    assert (K : nlookup id (nupdate id0 g0' inn) = Some (IC ch)).
+    { destruct (String.eqb id0 id) eqn:Q.
+      - apply String.eqb_eq in Q; subst id0. rewrite L in L0; inversion L0; subst g0.
+        simpl in G. rewrite (c_compile_err _ oc0 _ E) in G. inversion G; subst.
+        rewrite nupdate_id; assumption.
+      - apply String.eqb_neq in Q. rewrite nlookup_nupdate_other; assumption. }
+    destruct o; try solve [inversion H; subst; assumption].
+    eapply IH; eauto.
+Qed.
+
+Lemma cc_fails_on_chain_err : forall ids inn id oc ch e,
+  In (id, oc) ids -> nlookup id inn = Some (IC ch) -> c_err ch = Some e ->
+  snd (compile_children ids inn) <> None.
+Proof.
+  induction ids as [|[id0 oc0] ids IH]; intros inn id oc ch e I L E; simpl in *; [contradiction|].
+  destruct (nlookup id0 inn) as [g0|] eqn:L0.
+  - destruct (inner_compile g0 oc0) as [g0' o] eqn:G.
+    destruct o; simpl; try discriminate.
+    destruct (String.eqb id0 id) eqn:Q.
+    + apply String.eqb_eq in Q; subst id0. rewrite L in L0; inversion L0; subst g0.
+      simpl in G. rewrite (c_compile_err _ oc0 _ E) in G. inversion G.
+    + apply String.eqb_neq in Q. destruct I as [I|I]; [inversion I; congruence|].
+      apply (IH _ id oc ch e I); [rewrite nlookup_nupdate_other; assumption|assumption].
+  - destruct I as [I|I]; [inversion I; subst; congruence|]. eapply IH; eauto.
+Qed.
+
+Theorem chain_err_blocks_compile : forall keys s o k id oc e,
+  In k keys -> nlookup k (ns_att s) = Some (id, oc) -> chain_err s id e ->
+  forall r, snd (n_compile_in keys s o) <> OCompiled r.
+Proof.
+  intros keys s o k id oc e I A [ch [L E]] r. unfold n_compile_in.
+  destruct (reaches_children (ns_out s) o) eqn:R.
+  - assert (In (id, oc) (children_of s keys)) as IC1.
+    { unfold children_of. apply in_flat_map. exists k. rewrite A. simpl; auto. }
+    pose proof (cc_fails_on_chain_err _ _ _ _ _ _ IC1 L E) as F.
+    destruct (compile_children (children_of s keys) (ns_inn s)) as [inn' failed]. simpl in F.
+    destruct failed as [out|]; [|congruence]. destruct out; simpl; discriminate.
+  - destruct (not_reaching_fails _ _ R) as [e' E']. rewrite E'. simpl. discriminate.
+Qed.
+
+Lemma nstep_keeps_chain_err : forall s c id e, chain_err s id e -> chain_err (fst (nstep s c)) id e.
+Proof.
+  intros s c id e [ch [L E]]. destruct c as [c'|k id0 kd oc0|id0 c'].
+  - assert (Other : forall g' (o : outcome), chain_err (mkN g' (ns_inn s) (ns_att s)) id e) by (intros; exists ch; auto).
+    destruct c' as [k nk a b|a b|a ends|o]; simpl;
+      try (match goal with |- context [let '(_, _) := ?X in _] => destruct X end; simpl; apply Other; exact OOk).
+    unfold n_compile_in. destruct (reaches_children (ns_out s) o).
+    + destruct (compile_children (children_of s (sorted_keys (ns_out s))) (ns_inn s)) as [inn' failed] eqn:CC.
+      pose proof (cc_keeps_chain_err _ _ _ _ _ _ _ CC L E) as K.
+      destruct failed; [|destruct (g_compile fixed (ns_out s) o)]; simpl; exists ch; auto.
+    + destruct (g_compile fixed (ns_out s) o); simpl; exists ch; auto.
+  - simpl. destruct (g_add_node (ns_out s) k NSubOk false false false) as [g' o]. simpl.
+    destruct (nlookup id0 (ns_inn s)); [exists ch; auto|]. exists ch; split; [apply nlookup_app; assumption|assumption].
+  - simpl. destruct (nlookup id0 (ns_inn s)) as [g0|] eqn:L0; [|exists ch; auto].
+    destruct (istep g0 c') as [g0' o] eqn:G. simpl. cbn [ns_inn].
+    destruct (String.eqb id0 id) eqn:Q.
+    + apply String.eqb_eq in Q; subst id0. rewrite L in L0; inversion L0; subst g0.
+      destruct c' as [gc|cc]; simpl in G.
+      * inversion G; subst. exists ch. cbn [ns_inn]. split; [rewrite nupdate_id; assumption|assumption].
+      * destruct (cstep fixed ch cc) as [ch' o'] eqn:CS. inversion G; subst.
+        exists ch'. cbn [ns_inn]. split; [apply nlookup_nupdate_same; congruence|].
+        pose proof (proj1 (cstep_err ch cc e E)) as P. rewrite CS in P. exact P.
+    + apply String.eqb_neq in Q. exists ch. cbn [ns_inn]. rewrite nlookup_nupdate_other; auto.
+Qed.
+
+Lemma chain_err_final : forall cs s id e, chain_err s id e -> chain_err (final nstep s cs) id e.
+Proof.
+  unfold final. induction cs as [|c cs IH]; intros s id e F; simpl; [assumption|].
+  pose proof (nstep_keeps_chain_err s c id e F) as F1. destruct (nstep s c) as [s1 o]; simpl in F1.
+  specialize (IH s1 id e F1). destruct (run_calls nstep s1 cs); simpl in *; assumption.
+Qed.
+
+Lemma att_kept : forall s c k v, nlookup k (ns_att s) = Some v -> nlookup k (ns_att (fst (nstep s c))) = Some v.
+Proof.
+  intros s c k v A. destruct c as [c'|k0 id0 kd oc0|id0 c'].
+  - destruct c' as [k1 nk a b|a b|a ends|o]; simpl;
+      try (match goal with |- context [let '(_, _) := ?X in _] => destruct X end; simpl; assumption).
+    destruct (n_compile_out (sorted_keys (ns_out s)) s o) as [AA _]. rewrite AA. assumption.
+  - simpl. destruct (g_add_node (ns_out s) k0 NSubOk false false false) as [g' o]. simpl.
+    destruct o; try assumption. apply nlookup_app; assumption.
+  - simpl. destruct (nlookup id0 (ns_inn s)) as [i0|]; [|assumption]. destruct (istep i0 c'). assumption.
+Qed.
+
+Lemma att_final : forall cs s k v, nlookup k (ns_att s) = Some v -> nlookup k (ns_att (final nstep s cs)) = Some v.
+Proof.
+  unfold final. induction cs as [|c cs IH]; intros s k v A; simpl; [assumption|].
+  pose proof (att_kept s c k v A) as A1. destruct (nstep s c) as [s1 o]; simpl in A1.
+  specialize (IH s1 k v A1). destruct (run_calls nstep s1 cs); simpl in *; assumption.
+Qed.
+
+(* "After a successful Compile the graph can no longer be modified", through a Chain child: once a Chain held by a node of
+   the outer graph has been compiled, an Append* on it is recorded (ErrChainCompiled) and NO later Compile of the outer graph
+   succeeds, whatever else is called in between *)
+Theorem nested_chain_child_append_blocks : forall st cs0 k id oc ch nk key ns cs o r,
+  let s := final nstep (n_init st) cs0 in
+  nlookup k (ns_att s) = Some (id, oc) -> nlookup id (ns_inn s) = Some (IC ch) -> g_compiled (c_g ch) = true ->
+  let s1 := fst (nstep s (NInner id (KC (CAppend nk key ns)))) in
+  snd (nstep (final nstep s1 cs) (NOuter (GCompile o))) <> OCompiled r.
+Proof.
+  intros st cs0 k id oc ch nk key ns cs o r s A L C s1.
+  destruct (nested_frozen_chain_child_reports s id ch nk key ns L C) as [ch' [L1 [_ [e [E _]]]]].
+  assert (CE : chain_err s1 id e) by (exists ch'; auto).
+  pose proof (chain_err_final cs s1 id e CE) as CE2.
+  pose proof (reachable_att_inv cs0 (n_init st) (att_inv_init st) k (id, oc) A) as IK.
+  pose proof (att_kept s (NInner id (KC (CAppend nk key ns))) k (id, oc) A) as A1. fold s1 in A1.
+  pose proof (att_final cs s1 k (id, oc) A1) as A2.
+  simpl. apply chain_err_blocks_compile with (k := k) (id := id) (oc := oc) (e := e); try assumption.
+  apply sort_by_In.
+  apply (reachable_att_inv cs (s1)) with (id, oc); [|exact A2].
+  apply nstep_att_inv. apply (reachable_att_inv cs0 (n_init st) (att_inv_init st)).
+Qed.
